@@ -683,6 +683,16 @@ def gen_redial(ctx):
     add(["D1", "C"], "redial-close")
     add(["D0", "W", "R", "C"], "redial-dial-fails")
     add(["D1", "r0:1", "r0:1", "R", "R", "R", "W", "w0:1", "W", "w0:1", "r0:0", "D0", "W", "R", "R", "C"], "redial-traffic")
+    # long runs of carriers that fail at once (reader side, writer side, alternating), then a healthy one: the adapter
+    # redials as long as dialling succeeds, however many carriers failed and however quickly
+    for n in ([40, 70] if ctx.tier == "quick" else [33, 40, 70, 150]):
+        for how in ("r", "w", "rw"):
+            toks = []
+            for k in range(n):
+                side = how if how != "rw" else "rw"[k % 2]
+                toks += ["D1"] + (["W", "w%d:0" % k] if side == "w" else ["r%d:0" % k])
+            toks += ["D1", "W", "w%d:1" % n, "r%d:1" % n, "R", "C"]
+            add(toks, "redial-many-quick-failures")
     # Close() DURING a dial that then succeeds (the first dial, a redial after the reader / the writer failed, after
     # traffic): the carrier that dial hands over must be closed like every other ("closes every carrier it obtained")
     for pre in ([], ["W"], ["D1", "r0:0"], ["D1", "W", "w0:0"], ["D1", "r0:1", "R", "W", "w0:1", "r0:0"], ["D1", "r0:0", "D1", "W", "w1:0"]):
@@ -1038,7 +1048,27 @@ def monitors(ctx, exe):
     # a client between two carriers: seen only by being written to (real clock, real sweeper; timeout 400 ms)
     TW = 400
     lines.append("%s sweep %d keepw %d" % (AREA, TW, 4 if ctx.tier == "quick" else 16))
+    # the sweeper on a busy map (other clients written to and fetched without pause): run on its own afterwards
+    busy_line = "%s sweep %d expireb %d" % (AREA, T, 2 if ctx.tier == "quick" else 6)
     rc, out, err = vlib.run_impl(exe, lines, timeout=600)
+    if rc == 0 and len(out) == len(lines):
+        rcb, outb, errb = vlib.run_impl(exe, [busy_line], timeout=300)
+        ctx.count(busy_line, kind="sweep-expire-busy-map")
+        if rcb != 0 or len(outb) != 1:
+            ctx.violation("driver-crash", "monitor driver died: " + errb[-500:], dict(case=busy_line))
+        else:
+            for item in outb[0].split(","):
+                a, b = item.split(":")
+                if a == "never":
+                    ctx.violation("sweep-never", "busy map: an idle client's queue was still open %s us after it was last seen (timeout %d ms) while other "
+                                  "clients of the connection were being written to: the sweeper must wait for the map, not skip its round" % (b, T),
+                                  dict(case=busy_line, impl=outb[0])); break
+                if int(a) < T * 1000:
+                    ctx.violation("sweep-early", "busy map: a client's queue was closed %s us after it was last seen (timeout %d ms)" % (a, T), dict(case=busy_line, impl=outb[0])); break
+                if int(b) > 3.5 * T * 1000:
+                    ctx.violation("sweep-late", "busy map: an idle client's queue was still open %s us after it was last seen (nominal bound 1.5 x %d ms, slack 2 x)" % (b, T),
+                                  dict(case=busy_line, impl=outb[0])); break
+            ctx.extra["sweep_busy_answer"] = outb[0]
     if rc != 0 or len(out) != len(lines):
         ctx.violation("driver-crash", "monitor driver died: " + err[-500:], dict(case=lines[len(out)] if len(out) < len(lines) else None))
         return
@@ -1166,6 +1196,26 @@ def run(ctx):
                 bad = prop_cmb(l, r, None)
                 if bad:
                     ctx.violation(key_cmb(l, r, None), bad, dict(label="clientMapInner, many clients", case=l, impl=r[:2000]))
+        # the real sweeper while another goroutine is inside a critical section of the map whenever it comes (in-package:
+        # the driver holds m.lock around every sweep instant): it must wait for the lock, not give the round up
+        hold = ["%s sweephold %d %d" % (AREA, T_, H_) for T_, H_ in ([(300, 30), (200, 20), (400, 60)] if ctx.tier == "quick" else
+                                                                     [(300, 30), (200, 20), (400, 60), (1000, 200), (600, 100), (240, 12)])]
+        rc, outs, err = vlib.run_impl(texe, hold, args=("-test.run", "TestVerifDriver"), timeout=300)
+        outs += ["!died"] * (len(hold) - len(outs))
+        for l, r in zip(hold, outs):
+            if r == "!timing":
+                ctx.extra["cases_left_out_machine_too_busy"] = ctx.extra.get("cases_left_out_machine_too_busy", 0) + 1
+                continue
+            ctx.count(l, kind="sweep-while-lock-held")
+            T_ = int(l.split(" ")[2])
+            if r.startswith("open:"):
+                ctx.violation("sweep-skipped-under-contention", "an idle client's queue was still open %s us after it was last seen (timeout %d ms, sweep "
+                              "every %d ms) while another goroutine held the map's lock at each sweep instant: the sweeper must wait for the lock, "
+                              "a sweep that is due may be delayed but not dropped" % (r[5:], T_, T_ // 2), dict(label="sweeper", case=l, impl=r))
+            elif r.startswith("early:"):
+                ctx.violation("sweep-early", "a client's queue was closed %s us after it was last seen (timeout %d ms)" % (r[6:], T_), dict(label="sweeper", case=l, impl=r))
+            elif not r.startswith("closed:"):
+                ctx.violation("driver-crash", "sweephold answered " + r[:200], dict(label="sweeper", case=l, impl=r))
         # one in-Coq cross-check of the extracted runner for both families (a coqc start costs more than the cases)
         sample = []
         for ls, ms, n in ((lines, m1, 25), (lines2, m2, 20)):
